@@ -1,10 +1,12 @@
 /-
 Line-protocol driver for the coinswap model and the C01 / C02 monitors.
   model   <ops>               : prints one observation line per op line
-  monitor <C01|C02> <ops> <obs> : evaluates Spec.C01 / Spec.C02 on the implementation's observation stream
+  monitor <C01|C02|C12> <ops> <obs> : evaluates Spec.C01 / Spec.C02 on the implementation's observation
+                                stream; C12 judges the `export` / `reimport` lines (genesis round trip)
 -/
 import Irismod.Spec.C01
 import Irismod.Spec.C02
+import Irismod.Model.CoinswapGenesis
 import Irismod.Sdk.Line
 
 namespace Driver.Coinswap
@@ -159,6 +161,21 @@ def parseReset (t : List String) : Option State := do
     | _ => none
   return s
 
+/-- the exported genesis document in ITS OWN order (the order is part of what is compared) -/
+def showGenesis (g : CoinswapGenesis.Genesis) : String :=
+  let ps := g.pools.map fun p => s!"{p.id};{p.std};{p.cp};{p.escrow};{p.lpt}"
+  s!"seq={g.seq} std={g.std} fee={g.params.fee} tax={g.params.tax} ufee={g.params.ufee} " ++
+  s!"pcf={g.params.pcfAmt}:{g.params.pcfDenom} pools={undash (joinWith "|" ps)}"
+
+def validateWord (g : CoinswapGenesis.Genesis) : String :=
+  match CoinswapGenesis.validateGenesis g with
+  | .ok _ => "ok"
+  | .error _ => "err"
+
+/-- everything the observation carries is the same (pool registry compared as a set) -/
+def sameObs (a b : State) : Bool :=
+  showState a == showState b
+
 def resWord : R → String
   | .ok _ => "ok e=-"
   | .error (.reject c) => "rej e=" ++ c
@@ -171,6 +188,14 @@ def modelLine (s : State) (line : String) : State × String :=
     match parseReset r with
     | some s0 => (s0, "ok e=- resp=- " ++ showState s0)
     | none => (s, "bad-op")
+  | ["coinswap", "export"] =>
+    let g := CoinswapGenesis.exportGenesis s
+    (s, s!"ok validate={validateWord g} {showGenesis g}")
+  | ["coinswap", "reimport"] =>
+    -- InitGenesis(ExportGenesis(state)) on an emptied module store
+    match CoinswapGenesis.importGenesis s (CoinswapGenesis.exportGenesis s) with
+    | .ok s' => (s', "ok e=- resp=- " ++ showState s')
+    | .error _ => (s, "panic e=- resp=- " ++ showState s)
   | _ =>
     match parsePrice t with
     | some p => (s, priceLine p)
@@ -210,10 +235,29 @@ def runMonitor (prop : String) (ops obs : Array String) : IO Unit := do
       match parseState o blocked with
       | some s => pre := s
       | none => out.putStrLn s!"mon {prop} FAIL clause=obs-parse line={i+1}"; fails := fails + 1
+    | ["coinswap", "export"] =>
+      -- C12: the exported genesis of a reachable state passes ValidateGenesis
+      if prop == "C12" then
+        steps := steps + 1
+        if arg o "validate" != "ok" then
+          out.putStrLn s!"mon {prop} FAIL clause=export-invalid line={i+1}"; fails := fails + 1
+    | ["coinswap", "reimport"] =>
+      -- C12: the re-import succeeds and preserves every query of the projection (pools, sequence,
+      -- parameters, standard denom) and leaves the bank alone
+      match parseState o blocked with
+      | some post =>
+        if prop == "C12" then
+          steps := steps + 1
+          if o.head? != some "ok" then
+            out.putStrLn s!"mon {prop} FAIL clause=reimport-failed line={i+1}"; fails := fails + 1
+          if !(sameObs pre post) then
+            out.putStrLn s!"mon {prop} FAIL clause=reimport-changed-state line={i+1}"; fails := fails + 1
+        pre := post
+      | none => out.putStrLn s!"mon {prop} FAIL clause=obs-parse line={i+1}"; fails := fails + 1
     | _ =>
       match parsePrice t with
       | some p =>
-        steps := steps + 1
+        if prop != "C12" then steps := steps + 1
         if prop == "C01" then
           let v : Option (Option Nat) := match o with
             | ["panic"] => some none
@@ -227,10 +271,11 @@ def runMonitor (prop : String) (ops obs : Array String) : IO Unit := do
       | none =>
         match parseOp t, parseState o blocked with
         | some op, some post =>
-          steps := steps + 1
+          if prop != "C12" then steps := steps + 1
           let accepted := o.head? == some "ok"
           let cs := if prop == "C01" then Spec.C01.stepFails pre op accepted post
-                    else Spec.C02.stepFails pre op accepted post
+                    else if prop == "C02" then Spec.C02.stepFails pre op accepted post
+                    else []
           for c in cs do
             out.putStrLn s!"mon {prop} FAIL clause={c.1} line={i+1}{if c.2 = "" then "" else " class=" ++ c.2}"
             fails := fails + 1
@@ -247,7 +292,8 @@ def main (args : List String) : IO UInt32 := do
   | ["model", ops] => runModel (← readLines ops); return 0
   | ["monitor", "C01", ops, obs] => runMonitor "C01" (← readLines ops) (← readLines obs); return 0
   | ["monitor", "C02", ops, obs] => runMonitor "C02" (← readLines ops) (← readLines obs); return 0
-  | _ => IO.eprintln "usage: model <ops> | monitor C01|C02 <ops> <obs>"; return 2
+  | ["monitor", "C12", ops, obs] => runMonitor "C12" (← readLines ops) (← readLines obs); return 0
+  | _ => IO.eprintln "usage: model <ops> | monitor C01|C02|C12 <ops> <obs>"; return 2
 
 end Driver.Coinswap
 
